@@ -385,7 +385,7 @@ def run(ctx):
         if shown < 8 and case.get("canonical") not in ("b'/'", "b'/pre'") and (shown % 2 == 0 or rule != "same-origin"):
             ctx.samples.append(case)
             shown += 1
-    ctx.rule = ("exhaustive strings over {/ \\ . % 2 F 5 C a : @ ? # SP TAB LF CR VT} up to length 5 (thorough: also lengths 6-7 over {/ \\ . % 5 C a TAB}) as redirect parameter through the real "
+    ctx.rule = ("exhaustive strings over {/ \\ . % 2 F 5 C a : @ ? # SP TAB LF CR VT} up to length 4 plus lengths 5-6 over {/ \\ . % 5 C a TAB} (thorough: length 5 over the full alphabet, 6-7 over the sub-alphabet) as redirect parameter through the real "
                 "StandaloneRedirect.Canonical + http.Redirect and through isValidAbsolutePath; up to length 3/4 through every other function "
                 "(url.Parse, ParseRequestURI, String, RelativeValidator, AbsoluteValidator, SSO server / SSO proxy Canonical and Clean, http.Redirect); "
                 "16 absolute-URL templates around the SSO domain with an exhaustively enumerated hole (20-symbol host alphabet, length <= 2/3); the strings of "
